@@ -540,6 +540,8 @@ static void run_C07(const Args &a, long cs) {
 		if (sig) viol("C07:photospline-inspect:died-on-signal:" + std::to_string(sig), mj);
 		else if (!accepted && rc == 0) viol("C07:photospline-inspect:exit-0-on-rejected-file", mj);
 	}
+	// the size estimator parses the same file through its own code: whatever it is given it returns or throws
+	if (cs % 2 == 0) { phasef(std::string("estimateMemory of ") + m.name); try { size_t e = Table::estimateMemory(path, 1 + (uint32_t)r.below(3), 0); (void)e; count("estimateMemory-on-hostile-file:returned"); } catch (std::exception &e) { count("estimateMemory-on-hostile-file:threw"); } }
 	free(gb.p); unlink(path.c_str());
 	if (cs % 40 == 0) sample("{\"mutation\":" + jstr(m.name) + ",\"entry\":" + jstr(ename[entry]) + ",\"accepted\":" + (accepted ? "true" : "false") + ",\"bytes\":" + std::to_string(m.bytes.size()) + "}");
 	// leaks (failed reads must release what they allocated)
